@@ -52,9 +52,10 @@ class DefUse:
                     projs = rv["p"].get("p", [])
                     if not projs:
                         self.ref_of[lhs["l"]] = base
-                    elif all(e[0] == "deref" for e in projs) and base in self.ref_of and len(projs) == 1:
-                        # reborrow &(*r)
-                        self.ref_of[lhs["l"]] = self.ref_of[base]
+                    elif all(e[0] == "deref" for e in projs) and len(projs) == 1:
+                        # reborrow &(*r): same referent as r (r itself when it is a parameter
+                        # or an otherwise opaque reference)
+                        self.ref_of[lhs["l"]] = self.ref_of.get(base, base)
                 if rv["k"] == "agg":
                     for t in tgt:
                         self.origins[t].append(("agg", b, i, rv))
